@@ -1689,7 +1689,14 @@ class WassersteinVectorizer(BaseEstimator, TransformerMixin):
 
                     lot_dimension = reference_size * vectors.shape[1]
                     block_size = max(1, memory_size // (lot_dimension * 8))
-                    u, s, v = scipy.sparse.linalg.svds(X, k=1)
+                    # ARPACK starts from a random vector drawn from numpy's global generator and
+                    # returns the leading singular vector up to sign: fix both, so that two fits
+                    # with the same random_state build the same reference
+                    u, s, v = scipy.sparse.linalg.svds(
+                        X, k=1, v0=np.ones(min(X.shape), dtype=np.float64)
+                    )
+                    if v.sum() < 0:
+                        v = -v
                     reference_center = v @ vectors
                     if metric == cosine:
                         reference_center /= np.sqrt(np.sum(reference_center**2))
@@ -2393,7 +2400,14 @@ class SinkhornVectorizer(BaseEstimator, TransformerMixin):
 
                 lot_dimension = reference_size * vectors.shape[1]
                 block_size = max(1, memory_size // (lot_dimension * 8))
-                u, s, v = scipy.sparse.linalg.svds(X, k=1)
+                # ARPACK starts from a random vector drawn from numpy's global generator and
+                # returns the leading singular vector up to sign: fix both, so that two fits
+                # with the same random_state build the same reference
+                u, s, v = scipy.sparse.linalg.svds(
+                    X, k=1, v0=np.ones(min(X.shape), dtype=np.float64)
+                )
+                if v.sum() < 0:
+                    v = -v
                 reference_center = v @ vectors
                 if metric == cosine:
                     reference_center /= np.sqrt(np.sum(reference_center**2))
@@ -2910,7 +2924,14 @@ class WassersteinVectorizerOld(BaseEstimator, TransformerMixin):
 
                 lot_dimension = reference_size * vectors.shape[1]
                 block_size = max(1, memory_size // (lot_dimension * 8))
-                u, s, v = scipy.sparse.linalg.svds(X, k=1)
+                # ARPACK starts from a random vector drawn from numpy's global generator and
+                # returns the leading singular vector up to sign: fix both, so that two fits
+                # with the same random_state build the same reference
+                u, s, v = scipy.sparse.linalg.svds(
+                    X, k=1, v0=np.ones(min(X.shape), dtype=np.float64)
+                )
+                if v.sum() < 0:
+                    v = -v
                 reference_center = v @ vectors
                 if metric == cosine:
                     reference_center /= np.sqrt(np.sum(reference_center**2))
